@@ -124,6 +124,8 @@ pub struct View<'a> {
     pub ver: Ver,
     pub limit_cfg: u16,
     pub limit_eff: u16,
+    /// some CONNACK of this history lowered the limit in force below the configured one
+    pub limit_lowered: bool,
     pub manual: bool,
     pub connected: bool,
     pub conn: u32,
@@ -250,6 +252,7 @@ impl<M: Machine> Runner<M> {
             ver: self.cfg.ver,
             limit_cfg: self.d.limit_cfg,
             limit_eff: self.d.limit_eff,
+            limit_lowered: self.d.limit_ever_lowered,
             manual: self.cfg.manual,
             connected: self.d.connected,
             conn: self.d.conn,
@@ -649,8 +652,8 @@ fn bucket(n: usize) -> &'static str {
 #[derive(Clone, Copy, Debug, PartialEq, Eq, Serialize, Deserialize)]
 pub enum Trigger {
     None,
-    /// collision whose holder completes by PUBCOMP (F11) / id re-issued while a release is
-    /// pending (F12): any holder may be collided with
+    /// id re-issued while a release is pending (F12): the next id may belong to a QoS 2 flow
+    /// between PUBREC and PUBCOMP
     AnyHolder,
     /// collision pending, connection lost, broker has no session (F13)
     CollisionNoSession,
@@ -852,14 +855,12 @@ impl Gen {
             // wrong kind the client may accept: PUBACK for a QoS 2 id, PUBREC for a QoS 1 id
             if phase == Phase::Sent && self.rng.chance(1, 14) {
                 let to_rec = qos == 1;
-                // PUBREC on a collision holder makes it complete by PUBCOMP
-                if !(to_rec && is_holder && self.trigger != Trigger::AnyHolder) {
-                    ack = if to_rec {
-                        Pk::PubRec { pkid, reason: 0 }
-                    } else {
-                        Pk::PubAck { pkid, reason: 0 }
-                    };
-                }
+                let _ = is_holder;
+                ack = if to_rec {
+                    Pk::PubRec { pkid, reason: 0 }
+                } else {
+                    Pk::PubAck { pkid, reason: 0 }
+                };
             }
             // v5 reason codes
             if ver == Ver::V5 && self.rng.chance(1, 8) {
@@ -884,7 +885,13 @@ impl Gen {
                     _ => {}
                 }
             }
+            // F12 steering: the holder of a parked publish goes from PUBREC to PUBCOMP in one read,
+            // so that no connection loss can fall between the two
+            let pair = is_holder && self.trigger != Trigger::AnyHolder && matches!(ack, Pk::PubRec { reason, .. } if reason < 0x80);
             out.push(ack);
+            if pair {
+                out.push(Pk::PubComp { pkid, reason: 0 });
+            }
         }
         if let Some(a) = out.last() {
             self.last_ack = Some(a.clone());
@@ -1101,11 +1108,24 @@ impl Gen {
         let mut chunk_has_reply = false;
         let mut seen_rel: Vec<u16> = vec![];
         let mut seen_pub2: Vec<u16> = vec![];
+        let mut seen_rec: Vec<u16> = vec![];
         for p in pkts.drain(..) {
             if out.len() % READB_MAX == 0 {
                 chunk_has_reply = false;
             }
             let mut err = Self::provokes_error(r, &p);
+            // a PUBCOMP right behind the PUBREC of the same flow is solicited by then
+            if let Pk::PubRec { pkid, reason } = &p {
+                if !err && *reason < 0x80 {
+                    seen_rec.push(*pkid);
+                }
+            }
+            if let Pk::PubComp { pkid, .. } = &p {
+                if let Some(i) = seen_rec.iter().position(|x| x == pkid) {
+                    seen_rec.remove(i);
+                    err = false;
+                }
+            }
             // releases inside the batch: known iff the publish is earlier in the same batch
             if let Pk::PubRel { pkid, .. } = &p {
                 if seen_pub2.contains(pkid) && !seen_rel.contains(pkid) {
@@ -1173,6 +1193,17 @@ impl Gen {
             }
             return Some(Op::Replay);
         }
+        // steer around F12: a publish parked behind a flow that is already released must not be
+        // carried over a connection loss (it would be replayed before the PUBREL and take the id)
+        if self.trigger != Trigger::AnyHolder {
+            if let Some(pk) = r.model.parked().map(|l| l.pkid) {
+                if let Some(h) = r.model.holder(pk) {
+                    if h.phase == Phase::Released && h.written_conn == Some(r.d.conn) {
+                        return Some(Op::Batch(vec![Pk::PubComp { pkid: pk, reason: 0 }]));
+                    }
+                }
+            }
+        }
         let p = self.profile;
         let gate = r.d.gate_open();
         let has_live = r.model.live.values().any(|l| l.phase != Phase::Parked && l.written_conn == Some(r.d.conn));
@@ -1192,11 +1223,12 @@ impl Gen {
                 0 => {
                     let qos = self.rng.weighted(&[2, 5, 4]) as u8;
                     if qos > 0 && gate && self.trigger != Trigger::AnyHolder {
-                        // steer around F11/F12: the id about to be issued may only be held by a
-                        // QoS 1 publish still waiting for its PUBACK
+                        // steer around F12: the id about to be issued must not belong to a QoS 2
+                        // flow between PUBREC and PUBCOMP (a publish still waiting for its first
+                        // acknowledgement is fine: the new one is parked behind it)
                         let k = Self::predicted_next(r);
                         if let Some(h) = r.model.holder(k) {
-                            if !(h.phase == Phase::Sent && h.qos == 1) {
+                            if h.phase != Phase::Sent {
                                 if h.written_conn != Some(r.d.conn) {
                                     continue;
                                 }
@@ -1856,7 +1888,7 @@ fn run_shard(ctx: &Ctx, family: &str, profile: Profile, n_random: u64, shard: us
                     // kept) or a known finding where none was expected – say so
                     stats.add_extra("directed_trigger_free_scenarios_ended_by_record", 1);
                 }
-                if (ver == Ver::V4 && d.name == "collision-resolved-by-puback") || (ver == Ver::V5 && d.name.starts_with("F11")) {
+                if ver == Ver::V4 && d.name == "collision-resolved-by-puback" {
                     stats.sample(json!({
                         "kind": "directed", "name": d.name, "cfg": d.cfg, "ops": out.trace,
                         "corners": out.corners, "ended_by_record": out.stopped_by_record,
